@@ -56,7 +56,7 @@ enum Mode
   M_CONTEXT_ROOT_CLEARED,    // marked as root, then the marker overwritten with false
   M_NMODES
 };
-const int kSpans = 10, kScopes = 8, kRemotes = 6;
+const int kSpans = 10, kScopes = 48, kRemotes = 6;
 
 std::string hex(const uint8_t *p, size_t n)
 {
@@ -473,16 +473,21 @@ void run_program(int idx, const TaskProg &t)
         do_start(ts, op);
         break;
       case OP_SCOPE_BEGIN:
-        if (mine[op.a].started && !ts.scopes[op.b])
+        if (op.b >= 0 && op.b < kScopes && mine[op.a % kSpans].started && !ts.scopes[op.b])
         {
-          ts.scopes[op.b].reset(new trace_api::Scope(mine[op.a].span));
-          ts.scope_span[op.b] = (int)op.a;
-          ts.active.push_back((int)op.a);
+          ts.scopes[op.b].reset(new trace_api::Scope(mine[op.a % kSpans].span));
+          ts.scope_span[op.b] = (int)(op.a % kSpans);
+          ts.active.push_back((int)(op.a % kSpans));
+          if (ts.active.size() >= 7)
+            vsim::probe("ident.stack_depth_ge7");
+          if (ts.active.size() >= 15)
+            vsim::probe("ident.stack_depth_ge15");
         }
         break;
       case OP_SCOPE_END:
         // LIFO only: the generator closes the most recent open scope
-        if (ts.scopes[op.a] && !ts.active.empty() && ts.active.back() == ts.scope_span[op.a])
+        if (op.a >= 0 && op.a < kScopes && ts.scopes[op.a] && !ts.active.empty() &&
+            ts.active.back() == ts.scope_span[op.a])
         {
           ts.scopes[op.a].reset();
           ts.active.pop_back();
@@ -535,9 +540,56 @@ void generate(const std::string &, Rng &wl, Rng &fl, Case &c)
   c.set("sampler", (int64_t)wl.below(7));
   c.set("idgen", (int64_t)wl.below(2));
   c.stratum = fmt("sampler%lld", (long long)c.knob("sampler"));
+  // deep stratum: the active-span stack of a task grows across the runtime context's internal
+  // array growth steps (capacity 2, 6, 14, 30, 62) and unwinds again, with implicit-parent
+  // StartSpan probes at every level - "the span active on the calling thread" after a history
+  // of deep nesting
+  bool deep = wl.chance(0.2);
+  if (deep)
+    c.stratum += ".deep";
   for (int t = 0; t < ntasks; ++t)
   {
     TaskProg p;
+    if (deep)
+    {
+      int nspan = 0, nscope = 0;
+      std::vector<int> open_scopes;
+      auto start = [&](int mode) {
+        if (nspan < kSpans)
+        {
+          p.ops.push_back({OP_START, nspan, mode, (int64_t)wl.below(std::max(1, nspan)),
+                           (int64_t)wl.below(ntasks)});
+          ++nspan;
+        }
+      };
+      start(M_IMPLICIT);
+      static const int peaks[] = {3, 7, 8, 9, 15, 16, 17, 31, 33};
+      int rounds = (int)wl.range(1, 3);
+      for (int r = 0; r < rounds && nscope < kScopes; ++r)
+      {
+        int peak = peaks[wl.below(sizeof(peaks) / sizeof(peaks[0]))];
+        while ((int)open_scopes.size() < peak && nscope < kScopes)
+        {
+          if (wl.chance(0.15))
+            start(wl.chance(0.7) ? M_IMPLICIT : (int)wl.below(M_NMODES));
+          p.ops.push_back({OP_SCOPE_BEGIN, (int64_t)wl.below(nspan), nscope, 0, 0});
+          open_scopes.push_back(nscope++);
+        }
+        int low = (int)wl.below((uint64_t)std::min<size_t>(open_scopes.size(), 5));
+        if (wl.chance(0.3))
+          low = (int)wl.below(open_scopes.size() + 1);
+        while ((int)open_scopes.size() > low)
+        {
+          p.ops.push_back({OP_SCOPE_END, open_scopes.back(), 0, 0, 0});
+          open_scopes.pop_back();
+          if (wl.chance(0.12))
+            start(M_IMPLICIT);
+        }
+        start(M_IMPLICIT);
+      }
+      c.tasks.push_back(p);
+      continue;
+    }
     int n      = (int)wl.range(2, vsim::tier_scale() > 1 && wl.chance(0.5) ? 14 : 8);
     int nspan = 0, nscope = 0;
     std::vector<int> open_scopes;
@@ -719,7 +771,7 @@ const EngineDesc g_engine = {
     kShrink,
     kReal,
     kStub,
-    "one run = 1-3 tasks x 2-8 operations (StartSpan with one of twelve parenting modes: implicit, "
+    "one run = 1-3 tasks x 2-8 operations (a fifth of the runs: scope nests up to depth 33 that unwind and re-grow, with implicit-parent probes) (StartSpan with one of twelve parenting modes: implicit, "
     "explicit SpanContext own/remote/invalid/other task's, explicit Context with span / root "
     "marker / neither / remote / both / marker false / marker cleared; Scope begin/end; End) under one of seven sampler "
     "configurations and a random or sequential id generator; remote parents carry flag bytes "
